@@ -237,6 +237,11 @@ type method struct {
 	fn func(x *wallet.Wallet, tok string, own, signer *fixtures) (interface{}, error)
 }
 
+// degenerate input (name prefix "degenerate-"): the method takes its shortest path (nothing to store, parse, sign or
+// look up). With a token that is not own-live the call must FAIL (any error; success is the violation) without
+// touching stored data; with the own live token it is not judged.
+func (m method) degenerate() bool { return strings.HasPrefix(m.name, "degenerate-") }
+
 func fresh(f *fixtures) int { f.n++; return f.n }
 
 func allMethods() []method { //nolint:funlen
@@ -380,6 +385,90 @@ func allMethods() []method { //nolint:funlen
 		}},
 	)
 
+	// degenerate inputs
+	dg := func(name string, fn func(x *wallet.Wallet, tok string, own, signer *fixtures) (interface{}, error)) {
+		ms = append(ms, method{"degenerate-" + name, fn})
+	}
+
+	for i, doc := range []string{`{"id":"did:example:c19#nokey","type":"Ed25519VerificationKey2018"}`, `{}`, `{"privateKeyBase58":""}`, `{"id":"","type":""}`} {
+		doc := doc
+		dg(fmt.Sprintf("add-key-without-material-%d", i), func(x *wallet.Wallet, tok string, _, _ *fixtures) (interface{}, error) {
+			return nil, x.Add(tok, wallet.Key, []byte(doc))
+		})
+	}
+
+	for _, ct := range []wallet.ContentType{wallet.Collection, wallet.Credential, wallet.Metadata, wallet.Connection, wallet.DIDResolutionResponse,
+		wallet.ContentType("unknown"), wallet.ContentType("")} {
+		ct := ct
+		dg("add-empty-object-"+ct.Name(), func(x *wallet.Wallet, tok string, own, _ *fixtures) (interface{}, error) {
+			return nil, x.Add(tok, ct, []byte(fmt.Sprintf(`{"c19":%d}`, fresh(own))))
+		})
+		dg("add-no-json-"+ct.Name(), func(x *wallet.Wallet, tok string, _, _ *fixtures) (interface{}, error) {
+			return nil, x.Add(tok, ct, nil)
+		})
+		dg("get-empty-id-"+ct.Name(), func(x *wallet.Wallet, tok string, _, _ *fixtures) (interface{}, error) {
+			return x.Get(tok, ct, "")
+		})
+		dg("remove-empty-id-"+ct.Name(), func(x *wallet.Wallet, tok string, _, _ *fixtures) (interface{}, error) {
+			return nil, x.Remove(tok, ct, "")
+		})
+		dg("getall-unknown-collection-"+ct.Name(), func(x *wallet.Wallet, tok string, _, _ *fixtures) (interface{}, error) {
+			return x.GetAll(tok, ct, wallet.FilterByCollection("no-such-collection"))
+		})
+	}
+
+	dg("add-validate-invalid-jsonld", func(x *wallet.Wallet, tok string, _, _ *fixtures) (interface{}, error) {
+		return nil, x.Add(tok, wallet.Metadata, []byte(`{"@context":"https://w3id.org/wallet/v1","id":"did:example:c19v","undefinedTerm":1}`), wallet.ValidateContent())
+	})
+	dg("add-key-validate-no-material", func(x *wallet.Wallet, tok string, _, _ *fixtures) (interface{}, error) {
+		return nil, x.Add(tok, wallet.Key, []byte(`{"@context":["https://w3id.org/wallet/v1"],"id":"did:example:c19#k","type":"Ed25519VerificationKey2018"}`), wallet.ValidateContent())
+	})
+	dg("query-no-params", func(x *wallet.Wallet, tok string, _, _ *fixtures) (interface{}, error) {
+		return x.Query(tok)
+	})
+	dg("query-unsupported-type", func(x *wallet.Wallet, tok string, _, _ *fixtures) (interface{}, error) {
+		return x.Query(tok, &wallet.QueryParams{Type: "NoSuchQuery"})
+	})
+	dg("issue-invalid-credential", func(x *wallet.Wallet, tok string, _, signer *fixtures) (interface{}, error) {
+		return x.Issue(tok, []byte(`{}`), &wallet.ProofOptions{Controller: signer.edDID})
+	})
+	dg("issue-no-proof-options", func(x *wallet.Wallet, tok string, _, signer *fixtures) (interface{}, error) {
+		return x.Issue(tok, vcJSON("http://example.edu/credentials/c19-degenerate", signer.edDID, false), nil)
+	})
+	dg("prove-nothing", func(x *wallet.Wallet, tok string, _, signer *fixtures) (interface{}, error) {
+		return x.Prove(tok, &wallet.ProofOptions{Controller: signer.edDID})
+	})
+	dg("prove-no-proof-options", func(x *wallet.Wallet, tok string, _, _ *fixtures) (interface{}, error) {
+		return x.Prove(tok, nil)
+	})
+	dg("prove-unknown-controller", func(x *wallet.Wallet, tok string, _, _ *fixtures) (interface{}, error) {
+		return x.Prove(tok, &wallet.ProofOptions{Controller: "did:example:nobody"})
+	})
+	dg("verify-nothing", func(x *wallet.Wallet, tok string, _, _ *fixtures) (interface{}, error) {
+		return x.Verify(tok, wallet.WithRawCredentialToVerify(nil))
+	})
+	dg("verify-garbage", func(x *wallet.Wallet, tok string, _, _ *fixtures) (interface{}, error) {
+		return x.Verify(tok, wallet.WithRawPresentationToVerify([]byte(`{}`)))
+	})
+	dg("derive-nothing", func(x *wallet.Wallet, tok string, _, _ *fixtures) (interface{}, error) {
+		return x.Derive(tok, wallet.FromRawCredential(nil), &wallet.DeriveOptions{})
+	})
+	dg("resolve-manifest-no-option", func(x *wallet.Wallet, tok string, _, _ *fixtures) (interface{}, error) {
+		return x.ResolveCredentialManifest(tok, []byte(manifestJSON), nil)
+	})
+	dg("resolve-manifest-garbage-manifest", func(x *wallet.Wallet, tok string, own, _ *fixtures) (interface{}, error) {
+		return x.ResolveCredentialManifest(tok, []byte(`{`), wallet.ResolveRawCredential("out1", own.rawCred))
+	})
+	dg("signjwt-unknown-kid", func(x *wallet.Wallet, tok string, _, _ *fixtures) (interface{}, error) {
+		return x.SignJWT(tok, nil, nil, "did:example:nobody#k")
+	})
+	dg("signjwt-empty-kid", func(x *wallet.Wallet, tok string, _, _ *fixtures) (interface{}, error) {
+		return x.SignJWT(tok, nil, nil, "")
+	})
+	dg("createkeypair-unsupported-type", func(x *wallet.Wallet, tok string, _, _ *fixtures) (interface{}, error) {
+		return x.CreateKeyPair(tok, kms.KeyType("no-such-key-type"))
+	})
+
 	return ms
 }
 
@@ -501,8 +590,19 @@ func methodsAttack(rep int) *hx.Record { //nolint:funlen,gocyclo
 				rec.Dist = append(rec.Dist, "method="+m.name+"/"+class+"->"+p.Result)
 
 				if legit {
-					if p.Result != "ok" {
+					if p.Result != "ok" && !m.degenerate() {
 						vacuous[m.name] = true
+					}
+
+					continue
+				}
+
+				if m.degenerate() {
+					// any error is a rejection; success with a token that is not own-live is the violation
+					if p.Result == "ok" {
+						fail(class+"-token-admitted:"+m.name, fmt.Sprintf("%s on an instance of user %d with a %s token succeeded", m.name, u, class))
+					} else if len(calls) > 0 {
+						fail("rejected-op-touched-storage:"+m.name, fmt.Sprintf("%s failed (%s) but made storage calls %v", m.name, p.Err, calls))
 					}
 
 					continue
